@@ -40,13 +40,13 @@ type runner struct {
 	client string
 	async  bool
 
-	mu      sync.Mutex
-	gids    map[uint64]string  // goroutine id -> thread name
-	expect  map[string]string  // thread -> gate kind it is expected to park at next
-	parked  map[string]string  // thread -> gate kind it is parked at
-	threads map[string]*thread
-	jl      []string
-	pendCb  func(centrifuge.SubscribeReply, error)
+	mu          sync.Mutex
+	gids        map[uint64]string // goroutine id -> thread name
+	expect      map[string]string // thread -> gate kind it is expected to park at next
+	parked      map[string]string // thread -> gate kind it is parked at
+	threads     map[string]*thread
+	jl          []string
+	pendCb      func(centrifuge.SubscribeReply, error)
 	brokerCalls []string
 }
 
@@ -1160,4 +1160,173 @@ func subfailprobe(in json.RawMessage, res *vh.Result) error {
 	return nil
 }
 
-func main() { vh.Main(map[string]vh.Mode{"replay": replay, "jobprobe": jobprobe, "subfailprobe": subfailprobe}) }
+// pubunsubprobe (C04): the first publication to a delta subscription is parked between its position update and the
+// flag write-back (Transport.DisabledPushFlags is called there); the client unsubscribes meanwhile. The model keeps
+// "entry deleted" stable: afterwards "reports subscribed" and "has a routing entry" must agree.
+// connectcloseprobe (C05): a connection with a connect-time server-side subscription (presence enabled) is closed
+// after the subscription's presence landed and before connect finalizes; nothing of it may remain.
+func pubunsubprobe(in json.RawMessage, res *vh.Result) error {
+	var cfg struct {
+		N int `json:"n"`
+	}
+	_ = json.Unmarshal(in, &cfg)
+	if cfg.N == 0 {
+		cfg.N = 3
+	}
+	env, err := cl.NewEnv(centrifuge.Config{LogLevel: centrifuge.LogLevelNone})
+	if err != nil {
+		return err
+	}
+	env.OnSubscribe = func(_ *centrifuge.Client, _ centrifuge.SubscribeEvent, cb centrifuge.SubscribeCallback) {
+		cb(centrifuge.SubscribeReply{Options: centrifuge.SubscribeOptions{EnablePositioning: true, AllowedDeltaTypes: []centrifuge.DeltaType{centrifuge.DeltaTypeFossil}}}, nil)
+	}
+	if err := env.Run(); err != nil {
+		return err
+	}
+	defer env.Close()
+	for i := 0; i < cfg.N; i++ {
+		ch := fmt.Sprintf("pu%d_%d", vh.Seed(), i)
+		t := cl.NewTransport(centrifuge.ProtocolTypeJSON)
+		armed := false
+		var amu sync.Mutex
+		gate := cl.NewGate()
+		t.OnDisabledPushFlags = func() {
+			amu.Lock()
+			a := armed
+			armed = false
+			amu.Unlock()
+			if a {
+				gate.Arrive(5 * time.Second)
+			}
+		}
+		conn, _ := env.NewConnT("u", t)
+		conn.Connect()
+		sid := conn.NextID()
+		conn.Do(&protocol.Command{Id: sid, Subscribe: &protocol.SubscribeRequest{Channel: ch, Delta: "fossil"}})
+		if rep := conn.WaitReply(sid, 2*time.Second); rep == nil || rep.Subscribe == nil {
+			res.Drift("C04", "probe: delta subscribe failed", nil)
+			continue
+		}
+		amu.Lock()
+		armed = true
+		amu.Unlock()
+		pubDone := make(chan struct{})
+		go func() {
+			_, _ = env.Node.Publish(ch, []byte(`{"a":"0123456789012345678901234567890123456789"}`), centrifuge.WithHistory(10, time.Minute), centrifuge.WithDelta(true))
+			close(pubDone)
+		}()
+		if !gate.WaitArrived(2 * time.Second) {
+			<-pubDone
+			res.Count("pubunsub-not-applicable", 1) // DisabledPushFlags is not called in this window on this tree
+			conn.Client.Disconnect()
+			continue
+		}
+		unsubDone := make(chan struct{})
+		uid := conn.NextID()
+		go func() {
+			conn.Do(&protocol.Command{Id: uid, Unsubscribe: &protocol.UnsubscribeRequest{Channel: ch}})
+			close(unsubDone)
+		}()
+		for k := 0; k < 200 && conn.Client.IsSubscribed(ch); k++ {
+			time.Sleep(5 * time.Millisecond)
+		}
+		deleted := !conn.Client.IsSubscribed(ch)
+		gate.Release()
+		<-pubDone
+		select {
+		case <-unsubDone:
+		case <-time.After(3 * time.Second):
+		}
+		time.Sleep(10 * time.Millisecond)
+		sub := conn.Client.IsSubscribed(ch)
+		hub := env.Node.Hub().NumSubscribers(ch) > 0
+		replay := map[string]any{"probe": "first delta publication parked before its flag write-back; client unsubscribes; publication released", "channel_deleted_while_parked": deleted, "subscribed": sub, "routing": hub}
+		if sub != hub {
+			res.Violate("C04", fmt.Sprintf("probe:pub-vs-unsubscribe:subscribed=%v,routing=%v", sub, hub), fmt.Sprintf("after an unsubscribe raced the first publication of a delta subscription the connection reports subscribed=%v, routing entry present=%v", sub, hub), replay)
+		}
+		res.Distinct("pubunsub")
+		res.Sample(replay)
+		res.Done(1, 1)
+		conn.Client.Disconnect()
+	}
+	return nil
+}
+
+func connectcloseprobe(in json.RawMessage, res *vh.Result) error {
+	var cfg struct {
+		N int `json:"n"`
+	}
+	_ = json.Unmarshal(in, &cfg)
+	if cfg.N == 0 {
+		cfg.N = 3
+	}
+	for i := 0; i < cfg.N; i++ {
+		env, err := cl.NewEnv(centrifuge.Config{LogLevel: centrifuge.LogLevelNone})
+		if err != nil {
+			return err
+		}
+		gp, err := cl.NewGatePresence(env.Node)
+		if err != nil {
+			return err
+		}
+		env.Node.SetPresenceManager(gp)
+		ch := fmt.Sprintf("cc%d_%d", vh.Seed(), i)
+		gate := cl.NewGate()
+		gp.OnAdded = func(c, _ string) {
+			if c == ch {
+				gate.Arrive(5 * time.Second)
+			}
+		}
+		env.OnConnecting = func(_ context.Context, _ centrifuge.ConnectEvent) (centrifuge.ConnectReply, error) {
+			return centrifuge.ConnectReply{Subscriptions: map[string]centrifuge.SubscribeOptions{ch: {EmitPresence: true}}}, nil
+		}
+		if err := env.Run(); err != nil {
+			return err
+		}
+		conn, _ := env.NewConn("u", centrifuge.ProtocolTypeJSON)
+		connDone := make(chan struct{})
+		go func() {
+			conn.Do(&protocol.Command{Id: conn.NextID(), Connect: &protocol.ConnectRequest{}})
+			close(connDone)
+		}()
+		if !gate.WaitArrived(3 * time.Second) {
+			res.Drift("C05", "probe: connect-time subscription did not add presence", nil)
+			env.Close()
+			continue
+		}
+		conn.Client.Disconnect(centrifuge.DisconnectForceNoReconnect)
+		// close() flips the status at once and then may wait for the connect in progress; give it a moment
+		time.Sleep(60 * time.Millisecond)
+		gate.Release()
+		<-connDone
+		for k := 0; k < 100; k++ {
+			if c, _ := conn.T.Closed(); c {
+				break
+			}
+			time.Sleep(10 * time.Millisecond)
+		}
+		time.Sleep(50 * time.Millisecond)
+		pres, _ := gp.Inner.Presence(ch)
+		hub := env.Node.Hub().NumSubscribers(ch)
+		clients := env.Node.Hub().NumClients()
+		replay := map[string]any{"probe": "connect with a server-side subscription (presence); close after the presence add landed, before connect finalizes", "presence": len(pres), "routing": hub, "clients": clients}
+		if len(pres) > 0 {
+			res.Violate("C05", "probe:connect-close:presence-after-close", fmt.Sprintf("presence of the closed connection remains for the connect-time subscription (%d entries)", len(pres)), replay)
+		}
+		if hub > 0 {
+			res.Violate("C05", "probe:connect-close:routing-after-close", "routing entry of the closed connection remains for the connect-time subscription", replay)
+		}
+		if clients > 0 {
+			res.Violate("C05", "probe:connect-close:client-after-close", fmt.Sprintf("%d connections still registered", clients), replay)
+		}
+		res.Distinct("connectclose")
+		res.Sample(replay)
+		res.Done(1, 1)
+		env.Close()
+	}
+	return nil
+}
+
+func main() {
+	vh.Main(map[string]vh.Mode{"replay": replay, "jobprobe": jobprobe, "subfailprobe": subfailprobe, "pubunsubprobe": pubunsubprobe, "connectcloseprobe": connectcloseprobe})
+}
